@@ -925,16 +925,34 @@ def check_http_allocfail(ctx):
     bases.append(case_line(valid_stream(r, "chunked", body), 100, segs="-"))
     bases.append(case_line(b"HTTP/1.1 200 OK\r\nTransfer-Encoding: chunked\r\n\r\nzz\r\n", 100, segs="r3"))
     bases.append(case_line(valid_stream(r, "none", b""), 100, method=b"HEAD"))
+    # interim 1xx responses: the header copy and the header array of the 1xx block are freed and both are allocated
+    # again for the final block; an allocation refused in between (the wait for the final response, the new copy, the
+    # new array) must end in a clean -1, not in a second free of the discarded block (seed C14-j).  0 / 1 / 3 header
+    # lines in the 1xx block, the final response in the same segment and in a later one, three framings; short
+    # scenarios, so that EVERY allocation index is refused (once and from there on) in the quick tier too
+    every_index = set()
+    for nh in (0, 1, 3):
+        inter = b"HTTP/1.1 103 Early Hints\r\n" + b"".join(b"Link: </a%d>\r\n" % i for i in range(nh)) + CRLF
+        for fr in ("clen", "chunked", "close"):
+            fin = valid_stream(r, fr, b"hello world", nf=1)
+            for segs in ("-", "%d" % len(inter)):
+                ctx.count("c14.http.interim-1xx.%s" % ("same-segment" if segs == "-" else "later-segment"))
+                every_index.add(len(bases))
+                bases.append(case_line(inter + fin, 100, segs=segs))
+    # two 1xx blocks in a row, the second discarded while the first one's pointers are long gone
+    inter2 = b"HTTP/1.1 100 Continue\r\n\r\nHTTP/1.1 103 Early Hints\r\nLink: </a>\r\nLink: </b>\r\n\r\n"
+    every_index.add(len(bases))
+    bases.append(case_line(inter2 + valid_stream(r, "clen", b"hello", nf=0), 100, segs="25,%d" % (len(inter2) - 25)))
     sem0, health0, st0 = run_impl(exe, bases)
     cases = []
-    for b, h in zip(bases, health0):
+    for bi, (b, h) in enumerate(zip(bases, health0)):
         m = re.match(r"allocs=(\d+)", h)
         if not m or health_problem(h):
             ctx.fail(sub, "property", b, "baseline run not clean: " + h, property_fails=True)
             continue
         n = int(m.group(1))
         ks = list(range(1, n + 1))
-        if ctx.quick and len(ks) > 24:
+        if ctx.quick and len(ks) > 24 and bi not in every_index:
             ks = ks[:14] + sorted(r.sample(ks[14:], 10))
         for k in ks:
             cases.append(b + " failat=%d" % k)
@@ -975,7 +993,8 @@ def check_http_allocfail(ctx):
                 ctx.fail(sub, "property", c, "; ".join(problems)[:500] + " || impl=" + a[:160] + " | " + h, property_fails=True)
     ctx.count("c14.http.request-returned-null", nreq)
     ctx.record(sub, cases, set(zip(cases, sem)),
-               "HTTP requests re-run with the k-th library allocation refused (once / from k on), every k in thorough: no "
+               "HTTP requests (incl. 1xx blocks with 0/1/3 header lines before the final response, same / later segment, three "
+               "framings: every k) re-run with the k-th library allocation refused (once / from k on), every k in thorough: no "
                "crash, no sanitizer report, nothing live after the normal frees, at most one callback, NULL return when the "
                "refusal is inside http_request2, never a callback after an error return",
                samples=[cases[0][:200], cases[-1][:200]] if cases else [])
